@@ -26,6 +26,9 @@ example : descsEq [x, w [], b] [x, w [0, 0, 0, 1], b] = false := by decide
 example : descsEq [some ⟨[4], 0, [], [], 0, true⟩] [some ⟨[4], 0, [], [], 3, true⟩] = true := by decide
 -- an omitted operand stays omitted; a constant stays a constant
 example : descsEq [x, none] [x, b] = false := by decide
+example : descsEq [x, none, b] [x, b] = false := by decide
+-- a trailing omitted operand says nothing (bias-less CONV_2D written as [x, w, -1])
+example : descsEq [x, w [0]] [x, w [0], none] = true := by decide
 example : descsEq [some ⟨[4], 2, [], [], 0, true⟩] [some ⟨[4], 2, [], [], 0, false⟩] = false := by decide
 -- a run-time operand may have been folded into a constant of the same description, not the other way round
 example : descsEq [some ⟨[4], 2, [], [], 0, false⟩] [some ⟨[4], 2, [], [], 0, true⟩] = true := by decide
